@@ -50,6 +50,8 @@ package ingest
 //@   trusted
 //@   sets applied = true
 //@   sets applyFailed = result1 != nil
+//@   sets touched = touched || ref(w) == realW
+//@   sets canaryOK = canaryOK + ite(ref(w) != realW && result1 == nil, 1, 0)
 //@ func Worlds.FindOrCreateWorld
 //@   trusted
 //@   pure
@@ -145,3 +147,24 @@ package ingest
 //@ func ValidatePath
 //@   requires o != nil && features != nil
 //@   ensures implies(result == nil, p != nil && p.FeatureID().IsValid() && p.GeometryLen() >= 2)
+
+// ---- C13: a merged change that fails leaves the world as it was -------------------------
+// Ghost state: realW is the world handed to MergedChange.Apply; touched records that a
+// part was applied to it; canaryOK counts parts that succeeded on some other world (the
+// canary overlay). Proved: an error is returned with the real world touched only if
+// every part had first succeeded on the canary (the residual "partially applied" case
+// the code documents); in particular a part that fails on the canary never reaches the
+// real world, whatever the number of parts.
+//@ func NewMutableOverlayWorld
+//@   trusted
+//@   ensures result != nil && fresh(result)
+//@ func MergedChange.Apply
+//@   ghostvar realW = ref(w)
+//@   ghostvar touched = false
+//@   ghostvar canaryOK = 0
+//@   requires w != nil
+//@   loop 1 invariant realW == ref(w) && canary != nil && ref(canary) != realW
+//@   loop 1 invariant !touched && canaryOK == rangeindex + 1 && rangeindex >= -1 && rangeindex < len(m)
+//@   loop 2 invariant realW == ref(w) && canaryOK == len(m) && rangeindex >= -1
+//@   ensures implies(result1 != nil && touched, canaryOK == len(m))
+//@   ensures implies(result1 == nil, canaryOK == len(m))
